@@ -493,7 +493,9 @@ class Engine:
             else:
                 assert isinstance(sub_flow, list)
                 for dependency in sub_flow:
-                    dependency = path + dependency
+                    # dependencies are relative to the step's parent
+                    # and may contain '..', as in _add_step_path()
+                    dependency = normalize_path(path + dependency)
                     if dependency not in step_paths:
                         raise ValueError(
                             f'Unknown dependency step {dependency} is '
